@@ -265,6 +265,9 @@ func (c *Chain) initGenesis(ctx sdk.Context) {
 	if allow == nil {
 		allow = new(big.Int)
 	}
+	if allow.BitLen() > 256 {
+		allow = new(big.Int).Sub(new(big.Int).Lsh(big.NewInt(1), 256), big.NewInt(1))
+	}
 	c.FTF.SetMinters(ctx, ftftypes.Minters{
 		Address:   cctptypes.ModuleAddress.String(),
 		Allowance: sdk.NewCoin(MintDenom, sdkmath.NewIntFromBigInt(allow)),
@@ -274,7 +277,7 @@ func (c *Chain) initGenesis(ctx sdk.Context) {
 	}
 
 	if cfg.Double {
-		c.Ledger.Init(ctx, cfg.Funded, allow, cfg.FTFPaused)
+		c.Ledger.Init(ctx, cfg.Funded, cfg.Allowance, cfg.FTFPaused)
 	}
 
 	gs := cfg.Genesis
